@@ -152,12 +152,22 @@ def r15(body):
 
 @rule("R17", "for P in E.iter() -> for P in vx_it: E.iter()   [Verus-only label naming the ghost iterator; no executable change]")
 def r17(body):
-    return _sub(r"\bfor\s+(\w+)\s+in\s+(?!vx_it)([\w\.]+\.iter\(\))", lambda m: "for %s in vx_it: %s" % (m.group(1), m.group(2)), body)
+    return _sub(r"\bfor\s+(\w+)\s+in\s+(?!vx_it)([\w\.]+\.(?:iter|chars)\(\))", lambda m: "for %s in vx_it: %s" % (m.group(1), m.group(2)), body)
 
 
 @rule("R4", "X.sort(); X.dedup(); -> vx_sort_dedup(&mut X);   [trusted std contract]")
 def r4(body):
     return _sub(r"\b([\w\.]+?)\s*\.\s*sort\(\s*\)\s*;\s*\1\s*\.\s*dedup\(\s*\)\s*;", lambda m: "vx_sort_dedup(&mut %s);" % m.group(1), body)
+
+
+@rule("R5", "V.partition_point(|&it| it <= P) -> vx_partition_point_le(&V, P)   [trusted std contract]")
+def r5(body):
+    return _sub(r"\b([\w\.]+?)\s*\.\s*partition_point\(\s*\|\s*&\s*(\w+)\s*\|\s*\2\s*<=\s*(\w+)\s*\)", lambda m: "vx_partition_point_le(&%s, %s)" % (m.group(1), m.group(3)), body)
+
+
+@rule("R6", "S.chars().count() -> vx_chars_count(S)   [trusted std contract]")
+def r6(body):
+    return _sub(r"\b(\w+)\s*\.\s*chars\(\s*\)\s*\.\s*count\(\s*\)", lambda m: "vx_chars_count(%s)" % m.group(1), body)
 
 
 @rule("R9", "for P in A..B { BODY } -> { let mut vx_rng = A..B; loop { match vx_rng.next() { Some(P) => { BODY } None => break, } } }   [the language reference's definition of `for`; needed because Verus for-loops reject `continue`]")
